@@ -84,6 +84,11 @@ class Ctx(object):
         return func.loc(node)
 
 
+def facts_stats():
+    from . import facts
+    return facts.STATS
+
+
 def load_known():
     p = os.path.join(VERIF, 'known_findings.json')
     if not os.path.exists(p):
@@ -159,6 +164,9 @@ def write_evidence(prop_id, spec, ctx, new, reported_known, tier, seed, wall, pr
         'functions': len(program.functions),
         'call_sites': calls,
         'roles': roles.describe(),
+        'path_sensitive_explorations': facts_stats()['explorations'],
+        'cfg_fact_states_explored': facts_stats()['states_explored'],
+        'infeasible_edges_pruned': facts_stats()['edges_pruned_infeasible'],
         'sat_queries': oracle.stats['sat_queries'],
         'entail_queries': oracle.stats['entail_queries'],
         'known_findings_reported': [{'rule': v.rule, 'construct': v.construct, 'at': v.loc} for v, k in reported_known],
